@@ -124,8 +124,8 @@ pub fn plan(prop: &str, tier: &str) -> Option<Plan> {
                 b.add_sliced("rc/stalled-dropper", few, &[&[("k", 3)]], 2, 4);
             }
             b.add("rc/failed-cas-current", all, &[], bq);
-            b.add_sliced("rc/reader-flushes", if quick { &[0i64][..] } else { all }, &[&[("mode", 0)]], 3, 16);
-            b.add_sliced("rc/reader-flushes", if quick { &[0i64][..] } else { few }, &[&[("mode", 1)]], if quick { 2 } else { 3 }, 16);
+            b.add_sliced("rc/reader-flushes", if quick { &[0i64][..] } else { few }, &[&[("mode", 0)]], 3, 16);
+            b.add_sliced("rc/reader-flushes", &[0i64], &[&[("mode", 1)]], if quick { 2 } else { 3 }, 16);
             b.add("rc/snapshot-then-drop", all, &[&[("age", 4), ("pre", 2)], &[("age", 0), ("pre", 2)]], bq);
             b.add("rc/ws-upgrade-vs-attempt", all, &[&[("pre", 2)], &[("pre", 3)]], bq);
             b.add("rc/ws-upgrade-vs-cascade-child", all, &[&[("age", 4), ("pre", 2)]], bq);
@@ -139,7 +139,7 @@ pub fn plan(prop: &str, tier: &str) -> Option<Plan> {
             if quick {
                 b.add_cases("gen/rc", e(0).set("k1", 1).set("k2", 1).set("init", 3).set("pre", 2), crate::scen::gen::rc_cases(1, 1), 12);
             } else {
-                for (e0, init, pre) in [(0, 3, 2), (14, 3, 2), (0, 3, 3), (0, 0, 2)] {
+                for (e0, init, pre) in [(0, 3, 2), (0, 0, 2)] {
                     b.add_cases("gen/rc", e(e0).set("k1", 2).set("k2", 2).set("init", init).set("pre", pre), crate::scen::gen::rc_cases(2, 2), 80);
                 }
             }
@@ -287,8 +287,8 @@ pub fn plan(prop: &str, tier: &str) -> Option<Plan> {
                 }
             }
             if !quick {
-                let k = 4;
-                b.add_cases("gen/ebr", e(0).set("k", k).set("bag", 2), crate::scen::gen::ebr_cases(k as usize), 40);
+                let k = 3;
+                b.add_cases("gen/ebr", e(0).set("k", k).set("bag", 2), crate::scen::gen::ebr_cases(k as usize), 10);
                 for u in b.units.iter_mut().filter(|u| u.scenario == "gen/ebr") {
                     u.bound = 1;
                 }
@@ -307,7 +307,7 @@ pub fn plan(prop: &str, tier: &str) -> Option<Plan> {
         }
         "C15" => {
             let bq = if quick { 2 } else { 3 };
-            for mode in 0..4 {
+            for mode in 0..5 {
                 for j in 0..=3 {
                     for bag in [64, 2] {
                         b.add("ebr/exit", &[0], &[&[("mode", mode), ("j", j), ("bag", bag), ("k", 3)]], bq);
@@ -318,7 +318,7 @@ pub fn plan(prop: &str, tier: &str) -> Option<Plan> {
             b.goal("ebr/exit", "closure-ran");
             b.goal("ebr/exit", "all-closures-accounted");
             b.goal("ebr/payload", "all-closures-accounted");
-            rule = "concurrent: a thread defers 3 functions and leaves at every position in four ways (flush then exit, exit with the bag unflushed, handle dropped under a live guard, collector dropped with work pending) while another runs rounds, every schedule with at most B preemptions; sequential: closure size {0,1,8,16,23,24,25,32,64,256} x alignment {1..64} x bag capacity {1,2,3,64} x 7 fill levels x the four ways of leaving; each function must run exactly once with its captured bytes intact";
+            rule = "concurrent: a thread defers 3 functions and leaves at every position in five ways (flush then exit, exit with the bag unflushed, handle dropped under a live guard, collector dropped with work pending, exit after a nested reactivation) while another runs rounds, every schedule with at most B preemptions; sequential: closure size {0,1,8,16,23,24,25,32,64,256} x alignment {1..64} x bag capacity {1,2,3,64} x 7 fill levels x the four ways of leaving; each function must run exactly once with its captured bytes intact";
             bounds = json!({"preemptions": bq, "classes": sched::class_names(sched::EBR), "payload_cases": crate::scen::ebr::payload_cases()});
         }
         "C16" => {
